@@ -26,12 +26,11 @@ Definition run_allfail (p : plat) (meth site : string) (e : err) (s : pstate) (p
   let c := Build_cond e s (pid =? 0) in
   JL [ jv_res pid (all_outcome p meth site c);
        (if err_ok p e then jopt (jv_res pid) (all_demanded p meth site c) else jnone) ].
-(* double fault: model outcome, acceptable set, and "is a known class" *)
+(* double fault: model outcome and acceptable set *)
 Definition run_probe (p : plat) (meth site : string) (e1 e2 : err) (pid : Z) : jv :=
   let z := pid =? 0 in
   JL [ jv_res pid (probe_outcome p meth site e1 e2 z);
-       (if err_ok p e1 && err_ok p e2 then JL (map (jv_res pid) (probe_allowed p meth site e1 e2 z)) else jnone);
-       jbool (known_probe_raw p meth site e1 e2 z) ].
+       (if err_ok p e1 && err_ok p e2 then JL (map (jv_res pid) (probe_allowed p meth site e1 e2 z)) else jnone) ].
 Definition run_pair (p : plat) (meth site1 site2 : string) (e1 e2 : err) (s : pstate) (pid : Z) : jv :=
   let z := pid =? 0 in
   JL [ jv_res pid (pair_outcome p meth site1 site2 e1 e2 s z);
